@@ -406,3 +406,118 @@ Proof.
   destruct (computable_in inp r c D); [|reflexivity].
   split; [reflexivity|]. destruct Hwf as [Hw [_ Hs]]. apply zcell_ok; assumption.
 Qed.
+
+(* ------------------------------------------------------------------ |zncc| <= 1 = cmax (Cauchy-Schwarz) *)
+
+Local Open Scope Z_scope.
+
+Section CauchySchwarz.
+  (* a list of (x, y) pairs *)
+  Variable l : list (Z * Z).
+  Let n := Z.of_nat (length l).
+  Let Sx := zsum (map fst l).
+  Let Sy := zsum (map snd l).
+  Let Sxx := zsum (map (fun p => fst p * fst p) l).
+  Let Syy := zsum (map (fun p => snd p * snd p) l).
+  Let Sxy := zsum (map (fun p => fst p * snd p) l).
+
+  Lemma quad_sum : forall a b k m m' (l0 : list (Z * Z)),
+    zsum (map (fun p => (a * (k * fst p - m) + b * (k * snd p - m')) * (a * (k * fst p - m) + b * (k * snd p - m'))) l0)
+    = a * a * (k * k * zsum (map (fun p => fst p * fst p) l0) - 2 * k * m * zsum (map fst l0)
+               + Z.of_nat (length l0) * (m * m))
+      + 2 * a * b * (k * k * zsum (map (fun p => fst p * snd p) l0) - k * m' * zsum (map fst l0)
+                     - k * m * zsum (map snd l0) + Z.of_nat (length l0) * (m * m'))
+      + b * b * (k * k * zsum (map (fun p => snd p * snd p) l0) - 2 * k * m' * zsum (map snd l0)
+                 + Z.of_nat (length l0) * (m' * m')).
+  Proof.
+    intros a b k m m'. induction l0 as [|[x y] l0 IH]; cbn [map zsum length fst snd]; [ring|].
+    rewrite IH, Nat2Z.inj_succ. ring.
+  Qed.
+
+  (* n (a^2 VX + 2 a b CV + b^2 VY) is a sum of squares *)
+  Lemma quad_nonneg : forall a b,
+    0 <= n * (a * a * (n * Sxx - Sx * Sx) + 2 * a * b * (n * Sxy - Sx * Sy) + b * b * (n * Syy - Sy * Sy)).
+  Proof.
+    intros a b.
+    pose proof (zsum_sq_nonneg (fun i => i) (map (fun p => a * (n * fst p - Sx) + b * (n * snd p - Sy)) l)) as N.
+    rewrite map_map in N. cbv beta in N. rewrite (quad_sum a b n Sx Sy l) in N.
+    fold n Sx Sy Sxx Syy Sxy in N.
+    replace (n * (a * a * (n * Sxx - Sx * Sx) + 2 * a * b * (n * Sxy - Sx * Sy) + b * b * (n * Syy - Sy * Sy)))
+      with (a * a * (n * n * Sxx - 2 * n * Sx * Sx + n * (Sx * Sx)) +
+            2 * a * b * (n * n * Sxy - n * Sy * Sx - n * Sx * Sy + n * (Sx * Sy)) +
+            b * b * (n * n * Syy - 2 * n * Sy * Sy + n * (Sy * Sy))) by ring.
+    exact N.
+  Qed.
+
+  Lemma cauchy_schwarz_cov :
+    (n * Sxy - Sx * Sy) * (n * Sxy - Sx * Sy) <= (n * Sxx - Sx * Sx) * (n * Syy - Sy * Sy).
+  Proof.
+    set (VX := n * Sxx - Sx * Sx). set (VY := n * Syy - Sy * Sy). set (CV := n * Sxy - Sx * Sy).
+    assert (Hn : 0 <= n) by (subst n; lia).
+    destruct (Z.eq_dec n 0) as [Z0|NZ].
+    - (* empty list *)
+      assert (length l = 0%nat) by (subst n; lia). destruct l; [|discriminate].
+      subst VX VY CV Sx Sy Sxx Syy Sxy n. cbn. lia.
+    - assert (Q : forall a b, 0 <= a * a * VX + 2 * a * b * CV + b * b * VY).
+      { intros a b. pose proof (quad_nonneg a b) as H. fold VX VY CV in H. nia. }
+      pose proof (Q (- CV) VX) as Q1. pose proof (Q VY (- CV)) as Q2.
+      pose proof (Q 1 1) as Q3. pose proof (Q 1 (-1)) as Q4.
+      assert (PX : 0 <= VX) by (pose proof (Q 1 0); lia).
+      assert (PY : 0 <= VY) by (pose proof (Q 0 1); lia).
+      destruct (Z.eq_dec VX 0) as [X0|XN]; [destruct (Z.eq_dec VY 0) as [Y0|YN]|].
+      + rewrite X0, Y0 in *. assert (CV = 0) by lia. subst CV. rewrite H. lia.
+      + rewrite X0 in *. assert (0 <= VY * (- (CV * CV))) by nia. nia.
+      + assert (0 <= VX * (VX * VY - CV * CV)) by nia. nia.
+  Qed.
+End CauchySchwarz.
+
+(* the covariance of the model cell is bounded by the variances: |zncc| <= 1 *)
+Lemma zcell_bounded : forall inp D r c, 0 < i_w inp ->
+  let '(cm, vlm, vrm) := zcell inp D r c in cm * cm <= vlm * vrm.
+Proof.
+  intros inp D r c Hw. unfold zcell. cbv zeta.
+  set (w := i_w inp) in *. set (s := i_s inp).
+  set (SR := fun rr cc => shift_right s (i_R inp) (i_right s D) rr (cc + D / s)).
+  set (r' := r - offset w). set (c' := c - offset w).
+  rewrite !wsum_flat by exact Hw.
+  set (rg := range 0 (Z.to_nat w * Z.to_nat w)).
+  set (l := map (fun i => (i_L inp (r' + i / w) (c' + i mod w), SR (r' + i / w) (c' + i mod w))) rg).
+  pose proof (cauchy_schwarz_cov l) as CS. cbv zeta in CS.
+  assert (Ln : Z.of_nat (length l) = w * w).
+  { subst l rg. rewrite map_length, range_length, Nat2Z.inj_mul, Z2Nat.id by lia. reflexivity. }
+  rewrite Ln in CS. subst l. rewrite !map_map in CS. cbn [fst snd] in CS. exact CS.
+Qed.
+
+Local Open Scope Q_scope.
+
+(* any cost v determined by a triple with cov^2 <= varL varR lies in [-1, 1] *)
+Lemma zncc_is_bounded : forall v cov vl vr, cov * cov <= vl * vr -> zncc_is v cov vl vr -> v * v <= 1.
+Proof.
+  intros v cov vl vr B H. unfold zncc_is in H.
+  destruct (Qle_bool (vl * vr) 0) eqn:E.
+  - rewrite H. unfold Qle. cbn. lia.
+  - destruct H as [H _].
+    assert (P : 0 < vl * vr).
+    { apply Qnot_le_lt. intros C. apply Qle_bool_iff in C. rewrite C in E. discriminate. }
+    rewrite <- H in B.
+    setoid_replace (vl * vr) with (1 * (vl * vr)) in B at 2 by ring.
+    apply Qmult_le_r in B; assumption.
+Qed.
+
+Lemma zncc_volume_bounded : forall inp dmin dmax r c k cm vlm vrm, wf_cfg inp ->
+  (0 <= r < i_ny inp)%Z -> (0 <= c < i_nx inp)%Z -> (0 <= k < nb_disp (i_s inp) dmin dmax)%Z ->
+  zncc_volume inp dmin dmax r c k = Some (cm, vlm, vrm) ->
+  (cm * cm <= vlm * vrm)%Z
+  /\ forall v : Q, zncc_is v (inject_Z cm) (inject_Z vlm) (inject_Z vrm) -> v * v <= inject_Z (cmax Zncc inp).
+Proof.
+  intros inp dmin dmax r c k cm vlm vrm Hwf Hr Hc Hk H.
+  rewrite (zncc_volume_eq inp dmin dmax r c k Hwf Hr Hc Hk) in H. cbv zeta in H.
+  destruct (computable_in inp r c (disp_scaled (i_s inp) dmin k)); [|discriminate].
+  destruct Hwf as [Hw _].
+  pose proof (zcell_bounded inp (disp_scaled (i_s inp) dmin k) r c Hw) as B.
+  assert (E : zcell inp (disp_scaled (i_s inp) dmin k) r c = (cm, vlm, vrm)) by congruence.
+  rewrite E in B.
+  split; [exact B|]. intros v Hv. change (inject_Z (cmax Zncc inp)) with 1.
+  apply (zncc_is_bounded v _ _ _) in Hv; [exact Hv|].
+  rewrite <- !inject_Z_mult. rewrite <- Zle_Qle. exact B.
+Qed.
